@@ -67,6 +67,18 @@ HIST_TEXT = (" Composition (DESIGN.md 3.3): bounded histories through the public
              "through the pickle protocol into fresh class-level state; observe; every public mutator; observe; thorough: two mutations) for four vertex families, each "
              "observation compared with a reference model replaying the same calls - this part is an exploration of a stated scope, not a proof.")
 HIST_TECH = " + bounded abstract evaluation of whole-stack histories against a reference model"
+SCALE = {"C01", "C02", "C03", "C04", "C05", "C06", "C07", "C08", "C09", "C13", "C14", "C15", "C16"}
+SCALE_TEXT = (" Scale families (DESIGN.md 3.4): the same histories on graphs whose collections (links of a vertex, parallel links, members, universes of an object, ends of a link, "
+              "depth of a chain) have the sizes the tree itself names in comparisons, slices, range()/islice() arguments and constants - at and just above each - plus a default size "
+              "beyond the small scopes; also an exploration of a stated scope.")
+GEN = {"C06", "C07", "C13"}
+GEN_TEXT = (" Generator protocol (DESIGN.md 3.5): generator forms suspended / interleaved / abandoned / interrupted by a raising callback, the graph and later traversals compared "
+            "with the reference in each situation.")
+EXTRA_TEXT = {
+    "C10": " SPLICE-ORDER includes tuple-like nodes (memoised after their children, with pickle's recursion test); a tuple on a reference cycle is a known finding (D20, known_findings.txt).",
+    "C11": " BUILD-SCALE: a key listing n neighbours, n keys (every third row empty, its key named by nobody), an n x n matrix, at the sizes the tree names and a default size.",
+    "C20": " randgraph is also evaluated at the counts the tree itself names (size constants harvested from its source).",
+}
 
 REASONS_PENDING = "check under construction in this build phase (see DESIGN.md section 5 for the planned static rule)"
 
@@ -80,6 +92,11 @@ def main():
             level, text, ref, tech = T[pid][:4]
             if pid in HIST:
                 text, tech = text + HIST_TEXT, tech + HIST_TECH
+            if pid in SCALE:
+                text += SCALE_TEXT
+            if pid in GEN:
+                text += GEN_TEXT
+            text += EXTRA_TEXT.get(pid, "")
             note = T[pid][4] if len(T[pid]) > 4 else NOTE_AE
             checks.append({
                 "property_id": pid,
